@@ -10,18 +10,18 @@ impl StorageEngine {
 //@@   rewrite R2
     fn append(&self, shard_guard: &mut DatabaseShard, key: Key, value: Vec<u8>) -> (r: Result<usize>)
         ensures
-            step_ok(*old(shard_guard), *final(shard_guard), key),
-            r is Err ==> unchanged(*old(shard_guard), *final(shard_guard)),
+            step_ok(eff(*old(shard_guard), key), sv(*final(shard_guard)), key),
+            r is Err ==> unchanged(eff(*old(shard_guard), key), sv(*final(shard_guard))),
             // absent: created with the value
-            !old(shard_guard).data@.contains_key(key) ==> r == Ok::<usize, FerrousError>(value@.len() as usize)
-                && final(shard_guard).data@.contains_key(key) && final(shard_guard).data@[key].value == Value::String(value)
-                && final(shard_guard).data@[key].metadata.expires_at is None,
+            !eff(*old(shard_guard), key).data.contains_key(key) ==> r == Ok::<usize, FerrousError>(value@.len() as usize)
+                && sv(*final(shard_guard)).data.contains_key(key) && sv(*final(shard_guard)).data[key].value == Value::String(value)
+                && sv(*final(shard_guard)).data[key].metadata.expires_at is None,
             // present: string grows at the end, TTL survives; any other type is refused
-            old(shard_guard).data@.contains_key(key) ==> (match old(shard_guard).data@[key].value {
+            eff(*old(shard_guard), key).data.contains_key(key) ==> (match eff(*old(shard_guard), key).data[key].value {
                 Value::String(b) => r == Ok::<usize, FerrousError>((b@.len() + value@.len()) as usize)
-                    && final(shard_guard).data@.contains_key(key)
-                    && (final(shard_guard).data@[key].value matches Value::String(nb) && nb@ == b@ + value@)
-                    && final(shard_guard).data@[key].metadata == old(shard_guard).data@[key].metadata,
+                    && sv(*final(shard_guard)).data.contains_key(key)
+                    && (sv(*final(shard_guard)).data[key].value matches Value::String(nb) && nb@ == b@ + value@)
+                    && sv(*final(shard_guard)).data[key].metadata == eff(*old(shard_guard), key).data[key].metadata,
                 _ => r is Err,
             }),
 //@@ body
@@ -32,9 +32,9 @@ impl StorageEngine {
 //@@   rewrite R2
     fn getrange(&self, shard_guard: &mut DatabaseShard, key: &[u8], start: isize, end: isize) -> (r: Result<Vec<u8>>)
         ensures
-            unchanged(*old(shard_guard), *final(shard_guard)),
-            !old(shard_guard).data@.contains_key(key_of(key@)) ==> (r matches Ok(v) && v@.len() == 0),
-            old(shard_guard).data@.contains_key(key_of(key@)) ==> (match old(shard_guard).data@[key_of(key@)].value {
+            unchanged(eff(*old(shard_guard), key_of(key@)), sv(*final(shard_guard))),
+            !eff(*old(shard_guard), key_of(key@)).data.contains_key(key_of(key@)) ==> (r matches Ok(v) && v@.len() == 0),
+            eff(*old(shard_guard), key_of(key@)).data.contains_key(key_of(key@)) ==> (match eff(*old(shard_guard), key_of(key@)).data[key_of(key@)].value {
                 Value::String(b) => r matches Ok(v) && v@ == spec_getrange(b@, start as int, end as int),
                 _ => r is Err,
             }),
@@ -54,12 +54,13 @@ impl StorageEngine {
 //@@ end
 
 //@@ unit key_type fn src/storage/engine.rs StorageEngine::key_type
-//@@   params drop "db: DatabaseIndex" add "shard_guard: &DatabaseShard"
+//@@   params drop "db: DatabaseIndex" add "shard_guard: &mut DatabaseShard"
 //@@   rewrite R2
 //@@   rewrite RCALL to_string type_name verif_str_to_string
 //@@   rewrite RCALL to_string "\"none\"" verif_str_to_string
-    fn key_type(&self, shard_guard: &DatabaseShard, key: &[u8]) -> (r: Result<String>)
-        ensures r is Ok,
+    fn key_type(&self, shard_guard: &mut DatabaseShard, key: &[u8]) -> (r: Result<String>)
+        ensures            unchanged(eff(*old(shard_guard), key_of(key@)), sv(*final(shard_guard))),
+ r is Ok,
 //@@ body
 //@@ end
 }
